@@ -5,6 +5,7 @@ mod enc;
 mod fault;
 mod hist;
 mod search;
+mod types;
 use vcore::Args;
 
 fn main() {
@@ -13,6 +14,7 @@ fn main() {
         "hist" => hist::run(&args),
         "crash" => crash::run(&args),
         "conc" => conc::run(&args),
+        "types" => types::run(&args),
         "pathfam" => search::path_family(&args),
         "fault" => fault::run(&args),
         other => {
